@@ -308,9 +308,14 @@ static void run_enc_%(i)d(int form, unsigned char* buf, std::size_t len, vrt::to
 
 static void run_dec_%(i)d(int mode, const unsigned char* buf, std::size_t len)
 {
-    %(view)s<const char> m{reinterpret_cast<const char*>(buf), len};
+    %(view)s<dec_byte_t> m{reinterpret_cast<dec_byte_t*>(const_cast<unsigned char*>(buf)), len};
     if(mode == 0)
     {
+        {
+            const auto chk = sbepp::size_bytes_checked(m, len);
+            vrt::prz("zc", "checked_valid", chk.valid ? 1 : 0);
+            vrt::prz("zc", "checked_size", chk.size);
+        }
         vrt::prz("z", "#msg", sbepp::size_bytes(m));
         vrt::prz("z", "#hdr", sbepp::size_bytes(sbepp::get_header(m)));
         dL%(k)d_ra<%(mt)s>(std::string(), m, true);
@@ -331,7 +336,7 @@ static void run_dec_%(i)d(int mode, const unsigned char* buf, std::size_t len)
 
 static void run_vis_%(i)d(long stop_at, const unsigned char* buf, std::size_t len)
 {
-    %(view)s<const char> m{reinterpret_cast<const char*>(buf), len};
+    %(view)s<dec_byte_t> m{reinterpret_cast<dec_byte_t*>(const_cast<unsigned char*>(buf)), len};
     vrt::rec_visitor<char> v{stop_at, reinterpret_cast<const char*>(buf)};
     auto c = sbepp::init_cursor(m);
     sbepp::visit(m, c, v);
@@ -348,7 +353,7 @@ static void run_vis_%(i)d(long stop_at, const unsigned char* buf, std::size_t le
 
 static void run_evs_%(i)d(const unsigned char* buf, std::size_t len)
 {
-    %(view)s<const char> m{reinterpret_cast<const char*>(buf), len};
+    %(view)s<dec_byte_t> m{reinterpret_cast<dec_byte_t*>(const_cast<unsigned char*>(buf)), len};
     vL%(k)d(std::string(), m);
 }
 
@@ -389,6 +394,13 @@ HEAD = '''// generated codec driver for schema %(pkg)s
 #include <memory>
 
 static const unsigned char* g_base = nullptr;
+#ifdef VRT_RO_ARENA
+// C11 run-time half: images live in PROT_READ memory and are read through *mutable* view types
+#include "vrt_arena.hpp"
+typedef char dec_byte_t;
+#else
+typedef const char dec_byte_t;
+#endif
 '''
 
 MAIN = '''
@@ -437,10 +449,15 @@ int main()
             std::vector<unsigned char> img = t.bytes();
             // exact-size heap copy: the sanitizer sees any access beyond the image
             const std::size_t len = img.size();
+#ifdef VRT_RO_ARENA
+            vrt::ar().armed = 0; // any fault (i.e. any write, or a read beyond the image) is fatal: "FATAL ..." + exit 70
+            unsigned char* buf = vrt::arena_place(img.data(), len, true);
+#else
             std::unique_ptr<unsigned char[]> arena(new unsigned char[len ? len : 1]);
             unsigned char* buf = arena.get();
             if(len)
                 std::memcpy(buf, img.data(), len);
+#endif
             g_base = buf;
             if(cmd == "DEC")
             {
@@ -595,6 +612,8 @@ def expected_dec(m, msg, vals, mode):
     z = mode == 0
     total = R.message_size(m, msg, vals)
     if z:
+        out.append("zc checked_valid 1")
+        out.append("zc checked_size %d" % total)
         out.append("z #msg %d" % total)
         out.append("z #hdr %d" % m.enc_size(m.header()))
     expected_level(m, msg, vals, "", z, out, m.level_layout(msg)[2] + vals.extra)
